@@ -74,7 +74,10 @@ class World:
                            capa=[2.0, -1.5], price=[2.5, 4.0])
         self.orders_df = pd.DataFrame(self.orders)   # orders handed over as DataFrame: kept as numpy arrays by the order book
         self.ob = OrderBook(name="ob", nodes=n1, orders=self.orders_df)
-        self.pf = Portfolio([self.con, self.sto, self.ob, self.tr, self.mk2, self.st])
+        # an asset alone at its node and active on the second day only: on the other grids that node has no dispatch at all
+        n3 = Node("n3")
+        self.late = SimpleContract(name="late", nodes=n3, price="p", min_cap=-1.0, max_cap=1.0, start=T("2021-01-02 06:00"), end=T("2021-01-03"))
+        self.pf = Portfolio([self.con, self.sto, self.ob, self.tr, self.mk2, self.st, self.late])
         self.fm = SimpleContract(name="fm", nodes=n1, price="p", min_cap=-5.0, max_cap=5.0)
         self.flat = Portfolio([self.fm, self.isto, self.itr])
         self.grids = []
@@ -96,7 +99,7 @@ class World:
 
     def objects(self):
         return dict(con=self.con, sto=self.sto, tr=self.tr, mk2=self.mk2, isto=self.isto, itr=self.itr, st=self.st, pf=self.pf,
-                    fm=self.fm, flat=self.flat, capd=self.capd, taked=self.taked, P=self.P, ob=self.ob, orders=self.orders, orders_df=self.orders_df,
+                    fm=self.fm, flat=self.flat, capd=self.capd, taked=self.taked, P=self.P, ob=self.ob, late=self.late, orders=self.orders, orders_df=self.orders_df,
                     ctx=(self.cur, self.last, None if self.last_op is None else "op"))
 
     def key(self):
@@ -190,7 +193,9 @@ def run_history(case):
     hist = [tuple(o) for o in case["history"]]
     res = dict(status="ok", violations=[], counters={})
     so = sys.stdout
+    from mc import history as H
     w = World()
+    ms0 = H.module_state_hash()
     desc = None
     ctx = (None, None)
     try:
@@ -213,6 +218,9 @@ def run_history(case):
         sys.stdout = so
     op = hist[-1] if hist else None
     res["key"] = w.key()
+    if H.module_state_hash() != ms0:
+        res["violations"].append(viol("c10.module_state", "after %s state outside the objects changed (module-level container or a mutable default argument "
+                                      "of an eaopack function): later calls on ANY object may be affected" % (hist,), ["module_state"], ["module_state"]))
     res["stop"] = bool(desc and desc[0] == "exception")
     if op is None:
         res["outcome"] = "initial"
